@@ -111,7 +111,8 @@ impl OtlpLogsBuilder {
                 metrics.clone(),
                 resource
                     .as_ref()
-                    .map(|resource| encode_resource(self.encoding, resource)),
+                    .map(|resource| encode_resource(self.encoding, resource))
+                    .transpose()?,
                 ClientRequestEncoder::new(self.encoding, self.request_encoder),
             )?,
         ))
